@@ -745,4 +745,92 @@ C18_NoFeatureDisabled_Step ==
 C18_FeeExact_Prop          == [][C18_FeeExact_Step]_vars
 C18_NoFeatureDisabled_Prop == [][C18_NoFeatureDisabled_Step]_vars
 
+
+\* ================================================================== C17
+\* What every list query must return in state s: [err, items].  Items are the
+\* strings the harness abstracts a response element to (ids, denoms, account
+\* names, "account|denom" for balances, decimal order ids).
+QOk(S) == [err |-> FALSE, items |-> S]
+QErr == [err |-> TRUE, items |-> {}]
+DenomOfKey(s, bk) == IF HasBatchKey(s, bk) THEN BatchByKey(s, bk).denom ELSE "?"
+BalItem(s, r) == r.a \o "|" \o DenomOfKey(s, r.bk)
+BatchClassKey(s, b) == IF HasProjectKey(s, b.pk) THEN ProjectByKey(s, b.pk).ck ELSE 0
+
+QExpect(s, q, arg) ==
+  CASE q = "Classes"  -> QOk({c.id : c \in s.classes})
+    [] q = "Projects" -> QOk({p.id : p \in s.projects})
+    [] q = "Batches"  -> QOk({b.denom : b \in s.batches})
+    [] q = "AllBalances" -> QOk({BalItem(s, r) : r \in s.bal})
+    [] q = "SellOrders"  -> QOk({ToString(o.id) : o \in s.orders})
+    [] q = "Baskets"     -> QOk({k.denom : k \in s.baskets})
+    [] q = "AllowedDenoms" -> QOk({d.bank : d \in s.denoms})
+    [] q = "ClassesByAdmin"  -> QOk({c.id : c \in {x \in s.classes : x.admin = arg}})
+    [] q = "ProjectsByAdmin" -> QOk({p.id : p \in {x \in s.projects : x.admin = arg}})
+    [] q = "BatchesByIssuer" -> QOk({b.denom : b \in {x \in s.batches : x.issuer = arg}})
+    [] q = "Balances"        -> QOk({BalItem(s, r) : r \in {x \in s.bal : x.a = arg}})
+    [] q = "SellOrdersBySeller" -> QOk({ToString(o.id) : o \in {x \in s.orders : x.seller = arg}})
+    [] q = "ProjectsByClass" ->
+         IF ~HasClassId(s, arg) THEN QErr
+         ELSE QOk({p.id : p \in {x \in s.projects : x.ck = ClassById(s, arg).key}})
+    [] q = "BatchesByClass" ->
+         IF ~HasClassId(s, arg) THEN QErr
+         ELSE QOk({b.denom : b \in {x \in s.batches : BatchClassKey(s, x) = ClassById(s, arg).key}})
+    [] q = "ClassIssuers" ->
+         IF ~HasClassId(s, arg) THEN QErr
+         ELSE QOk({i.a : i \in {x \in s.issuers : x.ck = ClassById(s, arg).key}})
+    [] q = "BatchesByProject" ->
+         IF ~HasProjectId(s, arg) THEN QErr
+         ELSE QOk({b.denom : b \in {x \in s.batches : x.pk = ProjectById(s, arg).key}})
+    [] q = "ProjectsByReferenceId" ->
+         IF arg = "" THEN QErr ELSE QOk({p.id : p \in {x \in s.projects : x.ref = arg}})
+    [] q = "BalancesByBatch" ->
+         IF ~HasBatchDenom(s, arg) THEN QErr
+         ELSE QOk({BalItem(s, r) : r \in {x \in s.bal : x.bk = BatchByDenom(s, arg).key}})
+    [] q = "SellOrdersByBatch" ->
+         IF ~HasBatchDenom(s, arg) THEN QErr
+         ELSE QOk({ToString(o.id) : o \in {x \in s.orders : x.bk = BatchByDenom(s, arg).key}})
+    [] q = "BasketBalances" ->
+         IF ~HasBasket(s, arg) THEN QErr
+         ELSE QOk({x.denom : x \in {y \in s.bbal : y.bid = BasketByDenom(s, arg).id}})
+    [] OTHER -> QErr
+
+SeqToSet(q) == {q[i] : i \in DOMAIN q}
+NoDupSeq(q) == \A i, j \in DOMAIN q : i # j => q[i] # q[j]
+
+\* one logged walk x = [q, arg, mode, limit, items, total, pages, err]
+C17_ListOK(s, x) ==
+  LET e == QExpect(s, x.q, x.arg) IN
+  /\ x.err = e.err
+  /\ ~x.err =>
+       /\ NoDupSeq(x.items)                               \* no element twice
+       /\ (x.mode # "nil" \/ Cardinality(e.items) <= 100) => SeqToSet(x.items) = e.items
+       /\ x.total >= 0 => x.total = Cardinality(e.items)  \* correct total on the first page
+       /\ x.mode # "nil" =>                               \* no page is longer than asked for
+            x.pages * x.limit >= Len(x.items)
+
+\* single-entity queries return the stored values
+C17_SingleOK(s, x) ==
+  CASE x.q = "Balance" ->
+         ~x.err /\ [a |-> x.a, bk |-> x.bk, t |-> x.t, r |-> x.r, e |-> x.e] \in s.bal
+    [] x.q = "Supply" ->
+         ~x.err /\ [bk |-> x.bk, t |-> x.t, r |-> x.r, c |-> x.c] \in s.supply
+    [] x.q = "Batch" ->
+         ~x.err /\ \E b \in s.batches :
+            /\ b.denom = x.denom /\ b.issuer = x.issuer /\ b.open = x.open
+            /\ HasProjectKey(s, b.pk) /\ ProjectByKey(s, b.pk).id = x.project_id
+    [] x.q = "SellOrder" ->
+         ~x.err /\ \E o \in s.orders :
+            /\ o.id = x.id /\ o.seller = x.seller /\ o.qty = x.qty /\ o.ask = x.ask
+            /\ HasMarketId(s, o.mid) /\ MarketById(s, o.mid).denom = x.ask_denom
+            /\ DenomOfKey(s, o.bk) = x.denom
+    [] x.q = "BasketBalance" ->
+         ~x.err /\ \E y \in s.bbal : y.bid = x.bid /\ y.denom = x.denom /\ y.amt = x.amt
+    [] x.q = "Class" ->
+         ~x.err /\ \E c \in s.classes : c.id = x.id /\ c.admin = x.admin /\ c.ct = x.ct
+    [] x.q = "Project" ->
+         ~x.err /\ \E p \in s.projects :
+            /\ p.id = x.id /\ p.admin = x.admin /\ p.ref = x.ref
+            /\ HasClassKey(s, p.ck) /\ ClassByKey(s, p.ck).id = x.class_id
+    [] OTHER -> TRUE
+
 =============================================================================
